@@ -193,7 +193,8 @@ func c01Case(i int, raw []byte) Result {
 		{"filter", func(x *pdfdoc.Layout) { x.Filter = twin.Filter }},
 		{"length", func(x *pdfdoc.Layout) { x.Length = twin.Length }},
 		{"size", func(x *pdfdoc.Layout) { x.Size = twin.Size }},
-		{"split", func(x *pdfdoc.Layout) { x.Split = twin.Split }},
+		{"cut", func(x *pdfdoc.Layout) { x.Cut = "ops" }},
+		{"split", func(x *pdfdoc.Layout) { x.Split = twin.Split; x.Cut = "ops" }},
 		{"mediaAt", func(x *pdfdoc.Layout) { x.MediaAt = 0 }},
 		{"resAt", func(x *pdfdoc.Layout) { x.ResAt = 0 }},
 		{"depth", func(x *pdfdoc.Layout) {
